@@ -108,7 +108,7 @@ pub fn table_string(g: &G) -> String {
 
 pub fn run(tier: Tier, seed: u64) -> i32 {
     let t0 = Instant::now();
-    let sp = Spec { id: "C05", rule: RULE, tape_len: 180, cases: tier.pick(30_000, 400_000), gen: gen_case, check, max_shrink_iters: 4000, shards: 16 };
+    let sp = Spec { id: "C05", rule: RULE, tape_len: 180, cases: tier.pick(60_000, 800_000), gen: gen_case, check, max_shrink_iters: 4000, shards: 16 };
     let mut stats = engine::run_spec(&sp, tier, seed);
     engine::run_regressions::<Case>("C05", check, &mut stats);
     let extra = crate::props::xproc::cross_process_tables(tier, seed, &mut stats);
